@@ -16,7 +16,8 @@ EXPLANATION = (
     'the field). R-RNG2 (violation): no test with an error arm on the value exists on any path to the mask. Sites whose '
     'check has a form the interval domain does not express (same-page tests, path-dependent checks, table limits) are '
     'observations, not decided. R-ERR2: a range diagnostic is followed by an error return. Not decided: injectivity of '
-    'whole encodings, values OR-ed in without a mask, register-number parsers (decimal overflow), split fields whose bit set is not contiguous.')
+    'whole encodings, values OR-ed in without a mask, split fields whose bit set is not contiguous. REG-BOUND: every decimal '
+    'accumulation `v = v*10 + digit` in an assembler loop is bounded inside the loop (a many-digit register number cannot wrap into a valid one).')
 
 HERE = os.path.dirname(os.path.abspath(__file__))
 
@@ -32,6 +33,7 @@ def run(tier, t0):
     e2 = err.err2(prog, lambda f: f.file.startswith('asm/'), etable, floor=100)
     e2.obs = [o for o in e2.obs if 'range' in o.construct]
     e2.floor = 50
-    return report.finish('C06', tier, [res, e2], EXPLANATION,
+    rb = rng.digit_acc(prog)
+    return report.finish('C06', tier, [res, e2, rb], EXPLANATION,
                          ['a mask applied to a value is taken as the field it is encoded into; values inserted without a mask are not sites'],
                          common.TRUSTED, t0)
